@@ -289,8 +289,11 @@ def r3_access_statements(ctx, rep):
                     for x in c.args if isinstance(x, ast.Constant)] if pl else []
         ok = set(pl_lists) == set(lists) | {"variables"}
         rep.ob("public_list iterates the same lists plus variables", ok, f"public_list from {pl_lists}", py.nloc(pa))
-        t = ast.unparse(pl[0]).replace('"', "'") if pl else ""
-        ok = ".permission == 'public'" in t and "'public' in " in t
+        def is_public(c):
+            return isinstance(c, ast.Constant) and c.value == "public"
+        cmps = [c for c in ast.walk(pl[0]) if isinstance(c, ast.Compare) and len(c.ops) == 1] if pl else []
+        ok = any(isinstance(c.ops[0], ast.Eq) and isinstance(c.left, ast.Attribute) and c.left.attr == "permission" and is_public(c.comparators[0])
+                 for c in cmps) and any(isinstance(c.ops[0], ast.In) and is_public(c.left) for c in cmps)
         rep.ob("public_list = public entities + leftover names declared public (re-export)", ok, "", py.nloc(pa))
     var_loop = [n for n in loops if ast.unparse(n.iter) == "self.variables"]
     ok = bool(var_loop) and looks_up_by_name(var_loop[0]) and any(
